@@ -15,6 +15,7 @@ import (
 	"unicode"
 	"unicode/utf8"
 
+	"github.com/cespare/xxhash/v2"
 	"golang.org/x/tools/go/ssa"
 )
 
@@ -1781,6 +1782,21 @@ func registerMisc() {
 		u[15] = in.tc.Const(8, uint64(in.uuidSeq))
 		u[14] = in.tc.Const(8, uint64(in.uuidSeq>>8))
 		return tuple{u, iface{}}
+	}
+	I["github.com/cespare/xxhash/v2.Sum64"] = func(in *Interp, fr *frame, fn *ssa.Function, a []value) value {
+		bs := a[0].([]value)
+		b := make([]byte, len(bs))
+		for i, x := range bs {
+			t := x.(*Term)
+			if !t.IsConst() {
+				panic(engineErr("xxhash.Sum64 of symbolic bytes"))
+			}
+			b[i] = byte(t.c)
+		}
+		return in.tc.Const(64, xxhash.Sum64(b))
+	}
+	I["github.com/cespare/xxhash/v2.Sum64String"] = func(in *Interp, fr *frame, fn *ssa.Function, a []value) value {
+		return in.tc.Const(64, xxhash.Sum64String(in.mustStr(a[0], "xxhash.Sum64String")))
 	}
 	I["math/rand.Int63"] = func(in *Interp, fr *frame, fn *ssa.Function, a []value) value {
 		in.uuidSeq++
